@@ -777,6 +777,11 @@ class JinjaInterp:
             return t_env, f_env
         if isinstance(test, nodes.Name):
             v = env.get(test.name)
+            if v is not None and any(f[0] in ("macro", "undef") for f in v.funcs):
+                # a variable holding `alias.macro` / `alias|attr(name)`: true where the macro exists, undefined (false) where it does not
+                t_env[test.name] = replace(v, funcs=frozenset(f for f in v.funcs if f[0] != "undef"))
+                f_env[test.name] = replace(v, funcs=frozenset(f for f in v.funcs if f[0] == "undef"))
+                return t_env, f_env
             if v is not None and "None" in v.types:
                 t_env[test.name] = replace(v, types=v.types - {"None"})
             return t_env, f_env
@@ -1030,6 +1035,16 @@ class JinjaInterp:
             if name == "list" and ({"set"} & base.types):
                 return AV(types=frozenset({"set"}), elem=el)  # order still unobserved until iterated/joined/sorted
             return AV(types=frozenset({"sortedlist" if keep_sorted else "list"}), elem=el)
+        if name == "attr" and args:
+            # `x|attr(NAME)` is getattr(x, NAME): decided for every constant NAME can be (a macro looked up by name in a template
+            # module gives that macro or, where the module lacks it, an undefined value exactly like `x.NAME`)
+            names_ = self.const_strings(args[0])
+            if names_:
+                out_ = BOTTOM
+                for nm in names_:
+                    out_ = join(out_, self.getattr(base, nm, n, env))
+                return out_
+            return typed("Any", labels=base.labels)
         if name in ("length", "count", "int", "float", "abs", "round", "sum", "wordcount"):
             return num()
         if name in ("first", "last", "random", "min", "max"):
